@@ -46,6 +46,12 @@ def _limit(mem_gb):
     def fn():
         resource.setrlimit(resource.RLIMIT_AS, (mem_gb << 30, mem_gb << 30))
         os.setsid()
+        try:        # die with the checker: no orphaned solver keeps running when a check is interrupted
+            import ctypes, signal
+            ctypes.CDLL('libc.so.6', use_errno=True).prctl(1, signal.SIGKILL)      # PR_SET_PDEATHSIG
+            resource.setrlimit(resource.RLIMIT_CPU, (6 * 3600, 6 * 3600))
+        except Exception:
+            pass
     return fn
 
 
